@@ -22,6 +22,9 @@ const (
 type BindOpts struct {
 	NT, NV     int
 	AnyDeposit bool // the existing binding may be available below the minimum deposit (parameters raised since)
+	MsgLoose   bool // the message's pricing is one the parser reads but the schema may refuse (discount >= 1, volume 0)
+	MsgPlain   bool // the message's pricing carries no promotions (whatever the stored pricing has)
+	Huge       bool // model the SDK's 255-bit range checks; the message's amounts are free up to 255 bits
 }
 
 // sceneBindingMsg: bind / update / enable / disable / refund-deposit through the handler, against
@@ -30,6 +33,11 @@ type BindOpts struct {
 func sceneBindingMsg(op int, o BindOpts) {
 	noMinAssumed = o.AnyDeposit
 	k, ctx := vf.Env()
+	if o.Huge {
+		hugeMode = true
+		vf.CheckOverflow()
+		vf.Assume(k.MinDeposit(ctx).AmountOf(Denom).LT(two127()))
+	}
 	ctx, _, now := Block(ctx)
 	defined := vf.Bool("defined")
 	if defined {
@@ -50,7 +58,7 @@ func sceneBindingMsg(op int, o BindOpts) {
 		signer = vf.Addr("stranger", 20)
 		vf.Assume(!signer.Equals(owner))
 	}
-	depAcc := vf.Amount("depositRest")
+	depAcc := inState(vf.Amount("depositRest"))
 	// the provider may already be owned through a binding of another service
 	owned := vf.Bool("providerOwned")
 	var other BindingSpec
@@ -71,13 +79,15 @@ func sceneBindingMsg(op int, o BindOpts) {
 		wa = vf.Addr("withdrawAddr", 20)
 		k.SetWithdrawAddress(ctx, owner, wa)
 	}
-	balS := vf.Amount("balSigner")
-	vf.SetBalance(prov, vf.Amount("balProv")) // the provider has money of its own, which no binding message may touch
+	balS := inState(vf.Amount("balSigner"))
+	vf.SetBalance(prov, inState(vf.Amount("balProv"))) // the provider has money of its own, which no binding message may touch
 	vf.SetBalance(signer, balS)
 	balProv0 := vf.Balance(prov)
 	balOwner0 := vf.Balance(owner)
 	vf.SetModuleBalance(types.DepositAccName, depAcc)
-	supply0 := vf.Amount("supplyRest").Add(depAcc).Add(balS)
+	esc0 := inState(vf.Amount("escrow")) // what the request escrow holds is none of a binding message's business
+	vf.SetModuleBalance(types.RequestAccName, esc0)
+	supply0 := inState(vf.Amount("supplyRest")).Add(depAcc).Add(balS)
 	vf.SetSupply(supply0)
 	defBefore, _ := k.GetServiceDefinition(ctx, "other")
 
@@ -99,7 +109,13 @@ func sceneBindingMsg(op int, o BindOpts) {
 	text := ""
 	var newPricing types.Pricing
 	if op == opBind || (op == opUpdBinding && vf.Bool("m.hasPricing")) {
-		text = vf.PricingText("m.pricing", o.NT, o.NV)
+		if o.MsgPlain {
+			text = vf.PricingText("m.pricing", 0, 0)
+		} else if o.MsgLoose {
+			text = vf.PricingTextLoose("m.pricing", o.NT, o.NV)
+		} else {
+			text = vf.PricingText("m.pricing", o.NT, o.NV)
+		}
 		p, perr := k.ParsePricing(ctx, text)
 		vf.Assume(perr == nil)
 		newPricing = p
@@ -136,6 +152,7 @@ func sceneBindingMsg(op int, o BindOpts) {
 	chk("C05", vf.Implies(reserved, err != nil), "module-reserved-service-cannot-be-bound")
 	chk("C05", vf.Implies(vf.And(err == nil, vf.Or(present, owned)), rightful), "only-the-owner-acts")
 	chk("C03 C04", vf.Supply().Equal(supply0), "no-burn-by-binding-messages")
+	chk("C01 C02 C03", vf.ModuleBalance(types.RequestAccName).Equal(esc0), "escrow-untouched-by-binding-messages")
 	defAfter, defOK := k.GetServiceDefinition(ctx, "other")
 	chk("C15", vf.All(defOK, defAfter.Schemas == defBefore.Schemas, defAfter.Author.Equals(defBefore.Author)), "definitions-untouched")
 	if owned {
@@ -160,6 +177,12 @@ func sceneBindingMsg(op int, o BindOpts) {
 	vf.Reach("accepted")
 	vf.Assume(found)
 	newDep := post.Deposit.AmountOf(Denom)
+	// custody: the deposit account moves by exactly what the recorded deposit of this binding moves
+	preDep := sdk.ZeroInt()
+	if present {
+		preDep = pre.Deposit
+	}
+	chk("C03", depAcc1.Sub(depAcc).Equal(newDep.Sub(preDep)), "deposit-account-follows-the-recorded-deposit")
 	// identity and indexes (D)
 	chk("C15", vf.All(post.ServiceName == Svc, post.Provider.Equals(prov), post.Owner.Equals(owner) || !present && !owned), "binding-identity")
 	own, hasOwn := k.GetOwner(ctx, prov)
@@ -191,7 +214,7 @@ func sceneBindingMsg(op int, o BindOpts) {
 	chk("C14", vf.Implies(vf.And(post.Available, touched || !o.AnyDeposit), newDep.GTE(MinDepositRef(k, ctx, price))), "available-holds-minimum-for-its-price")
 	switch op {
 	case opBind:
-		chk("C15", vf.All(defined, !present), "bind-needs-definition-and-no-duplicate")
+		chk("C15 C03", vf.All(defined, !present), "bind-needs-definition-and-no-duplicate")
 		chk("C03", vf.All(newDep.Equal(add), depAcc1.Sub(depAcc).Equal(add), balS.Sub(balS1).Equal(add)), "bind-moves-deposit-into-custody")
 		chk("C14 C03", vf.All(post.Available, post.DisabledTime.IsZero(), post.QoS == qos, post.Pricing == text), "bind-creates-available-binding")
 		chk("C08 C06", vf.And(qos >= 1, qos <= uint64(k.MaxRequestTimeout(ctx))), "qos-within-bounds")
